@@ -70,7 +70,7 @@ ASSUMPTIONS = ['numerical judgement domain: entries whose expected rounding erro
                'non-finite (NaN) timeslices are outside the quantifier: the fallback branch of _GEVP_solver (except LinAlgError/TypeError/ValueError) is not judged',
                'replica means (r_values) of the results are compared with the model at the replica means as telemetry only: the statement names the energies and their fluctuations, not replica means; observed: mpm / linalg.eig can return the replica mean of another level (unsorted np.linalg.eig re-evaluated at the replica means), GEVP next to level crossings likewise',
                'rejection rows only demand that an exception is raised (N = 1, ts <= t0, missing ts, unknown sort, Ntrunc >= N, non-positive G(t0), undefined t0, mpm p / k limits)']
-BUDGET = {'quick': 40, 'thorough': 400}
+BUDGET = {'quick': 55, 'thorough': 400}
 
 PE = None
 CTX = None
